@@ -136,3 +136,14 @@ VARIANTS += [
     V("twin-replay-clip-spelled-with-if", BS, "next_t = min(curr_t + step_size, ts[-1])\n",
       "next_t = curr_t + step_size\n                if next_t > ts[-1]:\n                    next_t = ts[-1]\n", expect="silent"),
 ]
+
+VARIANTS += [
+    # R12.11: seeded random output-time lists against the real driver with an uninterpreted chained step
+    V("chained-output-near-step-end-returns-step-end", BS, APPEND,
+      "            if curr_t - out_t < 1e-3 * step_size:\n                ys.append(curr_y)\n            else:\n    " + APPEND,
+      rule="R12.11"),
+    V("chained-grid-anchored-at-zero", BS, "next_t = min(curr_t + step_size, ts[-1])\n",
+      "next_t = min((torch.floor(curr_t / step_size + 1e-9) + 1) * step_size, ts[-1])\n", rule="R12.11"),
+    V("twin-chained-interp-keywords-reordered", BS, APPEND,
+      "            ys.append(interp.linear_interp(t=out_t, t0=prev_t, y0=prev_y, t1=curr_t, y1=curr_y))", expect="silent"),
+]
